@@ -454,6 +454,55 @@ Section Kinds.
     split; [exact E|]. split; [exact He|]. split; [exact Hl|]. symmetry. apply mchk_eqv_ser. exact He.
   Qed.
 
+  Lemma c15_vegas_after_reload_wf d cb cs (c0 : vchk K) idx c idx' ls :
+    (forall x y, vchk_eqv x y -> cb x = cb y) ->
+    vegas_run L strm ps f d cb cs c0 idx = Ok (c, idx', ls) ->
+    length (b_gens (vc_base c0)) = S (length (b_results (vc_base c0))) ->
+    wf_vchk (vchk_dimensions c0 d) = true ->
+    forall j, j <= length ls ->
+    let k := N.of_nat (length (b_results (vc_base c0)) + j) in
+    let cj := nth j (chks _ _ (vchk_dimensions c0 d) ls) (vchk_dimensions c0 d) in
+    exists c_re ck,
+      vchk_reload digits10 c = Ok c_re /\ vchk_rollback c_re k = Ok ck /\
+      vchk_eqv cj ck /\ ser_vchk digits10 ck = ser_vchk digits10 cj /\
+      (* resuming from it, with any calls list: same results, textually identical checkpoints *)
+      (forall cs' idx1, out_eqv (vchk K) (event K) vchk_eqv
+         (vegas_run L strm ps f d cb cs' cj idx1) (vegas_run L strm ps f d cb cs' ck idx1)) /\
+      (* in particular the rest of the original calls list reproduces the rest of the original run *)
+      exists idxj, vegas_run L strm ps f d cb (firstn j cs) c0 idx = Ok (cj, idxj, firstn j ls) /\
+        ((j < length ls \/ length ls = length cs) ->
+         exists c2 ls2, vegas_run L strm ps f d cb (skipn j cs) ck idxj = Ok (c2, idx', ls2) /\
+           vchk_eqv c c2 /\ Forall2 (log_eqv _ _ vchk_eqv) (skipn j ls) ls2 /\
+           ser_vchk digits10 c2 = ser_vchk digits10 c).
+  Proof.
+    intros Hcb H Hg Hwf. apply c15_vegas_after_reload; try assumption.
+    eapply vegas_chks_wf; [exact H|exact Hwf|]. eapply vegas_final_In. exact H.
+  Qed.
+
+  Lemma c15_mc_after_reload_wf d n cb cs (c0 : mchk K) idx c idx' ls :
+    (forall x y, mchk_eqv x y -> cb x = cb y) ->
+    mc_run L strm ps f mp d n cb cs c0 idx = Ok (c, idx', ls) ->
+    length (b_gens (mc_base c0)) = S (length (b_results (mc_base c0))) ->
+    wf_mchk c0 = true ->
+    forall j, j <= length ls ->
+    let k := N.of_nat (length (b_results (mc_base c0)) + j) in
+    let cj := nth j (chks _ _ (mchk_channels c0 n) ls) (mchk_channels c0 n) in
+    exists c_re ck,
+      mchk_reload digits10 c = Ok c_re /\ mchk_rollback c_re k = Ok ck /\
+      mchk_eqv cj ck /\ ser_mchk digits10 ck = ser_mchk digits10 cj /\
+      (forall cs' idx1, out_eqv (mchk K) (event K) mchk_eqv
+         (mc_run L strm ps f mp d n cb cs' cj idx1) (mc_run L strm ps f mp d n cb cs' ck idx1)) /\
+      exists idxj, mc_run L strm ps f mp d n cb (firstn j cs) c0 idx = Ok (cj, idxj, firstn j ls) /\
+        ((j < length ls \/ length ls = length cs) ->
+         exists c2 ls2, mc_run L strm ps f mp d n cb (skipn j cs) ck idxj = Ok (c2, idx', ls2) /\
+           mchk_eqv c c2 /\ Forall2 (log_eqv _ _ mchk_eqv) (skipn j ls) ls2 /\
+           ser_mchk digits10 c2 = ser_mchk digits10 c).
+  Proof.
+    intros Hcb H Hg Hwf. apply c15_mc_after_reload; try assumption.
+    eapply mc_chks_wf; [exact H| |eapply mc_final_In; exact H].
+    apply (proj2 (proj2 (proj2 (proj2 (@fresh_wf K))))). exact Hwf.
+  Qed.
+
   (** ** the statements as the property words them *)
   Lemma c15_plain_rollback d cb cs (c0 : pchk K) idx c idx' ls :
     plain_run strm ps f d cb cs c0 idx = Ok (c, idx', ls) ->
